@@ -293,6 +293,54 @@ def rg_tail_missing(got, exp, dec):
     return j
 
 
+def rg_nul_part(chk, rep):
+    """Texts that hold U+0000, searched WITHOUT -a: binary detection looks at the transcoded text, so a labelled / marked
+    input must behave exactly like its UTF-8 transcoding searched with --encoding none (both through the reader): same
+    lines, same notices, same counts, same exit status, as a named file, under --binary and found by a directory walk."""
+    rg = vlib.build_rg()
+    # (no text with a matching line BEFORE the line that holds the NUL: whether such a line is reported before the search is
+    # given up depends on how the reads are cut - C14's envelope -, and the two sides are read in different pieces)
+    texts = ["m\x00x\nm\n", "x\nm\x00\nm\n", "\x00\nm\n", "x\x00\nnothing\n", "m\n", "x\n\x00m\nm\n"]
+    encs = [("utf-16le", "utf-16-le", b""), ("utf-16be", "utf-16-be", b""), ("auto", "utf-16-le", b"\xff\xfe"),
+            ("auto", "utf-16-be", b"\xfe\xff"), ("latin1", "cp1252", b""), ("utf-8", "utf-8", b"")]
+    tmp = tempfile.mkdtemp(prefix="verif-c17n-")
+    try:
+        for ti, text in enumerate(texts):
+            for ei, (label, codec, bom) in enumerate(encs):
+                for sub, data in (("e", bom + text.encode(codec)), ("d", text.encode("utf8"))):
+                    d = os.path.join(tmp, "%s%d_%d" % (sub, ti, ei))
+                    os.makedirs(d)
+                    with open(os.path.join(d, "f"), "wb") as f:
+                        f.write(data)
+                for flags in (["-n"], ["-c"], ["-n", "--binary"], ["-l"], ["--json"]):
+                    for named in (True, False):
+                        outs = []
+                        for sub, la in (("e", enc_args(label)), ("d", ["--encoding", "none"])):
+                            cwd = os.path.join(tmp, "%s%d_%d" % (sub, ti, ei))
+                            p = vlib.run([rg, "--no-config", "--color", "never", "-j1", "--no-mmap", "-I"] + la + flags + ["-e", "m"] + (["f"] if named else ["./"]),
+                                         cwd=cwd, timeout=60)
+                            so = p.stdout
+                            if flags == ["--json"]:
+                                so = b"\n".join(l for l in so.split(b"\n") if b'"type":"summary"' not in l and b'"type":"end"' not in l)
+                            outs.append((p.returncode, so))
+                        chk.evaluations += 1
+                        if outs[0] == outs[1]:
+                            chk.validated += 1
+                            if "\x00" in text:
+                                chk.nontrivial_case("nul:%d:%d:%s:%s" % (ti, ei, " ".join(flags), named))
+                            continue
+                        rep.report({"clause": "label" if not bom else "bom_removed", "encoding": label, "bom": "none" if not bom else "mark", "strategy": "rg",
+                                    "chunking": "max", "level": "rg", "effective": codec, "malformed": False, "eof_flush": False, "missing": 0,
+                                    "text_holds_nul": "\x00" in text, "flags": " ".join(flags), "named": named},
+                                   {"level": "rg", "why": "without -a the labelled / marked input and its UTF-8 transcoding (--encoding none) are treated differently",
+                                    "text": text, "label": label, "codec": codec, "flags": flags, "named": named,
+                                    "encoded_input": {"rc": outs[0][0], "stdout": outs[0][1][:300].decode("latin1")},
+                                    "utf8_transcoding": {"rc": outs[1][0], "stdout": outs[1][1][:300].decode("latin1")}})
+        chk.extra["rg_nul_pairs"] = len(texts) * len(encs)
+    finally:
+        shutil.rmtree(tmp, ignore_errors=True)
+
+
 def rg_big_part(chk, rep):
     """Inputs beyond the first 64 KiB: a long run of pure ASCII lines, then lines with encoded characters.  rg under the
     label (memory map and reader) must find exactly the matching lines of the UTF-8 transcoding (computed here with
@@ -558,6 +606,7 @@ def main(tier):
     tables = write_tables()
     try:
         rg_big_part(chk, rep)
+        rg_nul_part(chk, rep)
         coverage_run(chk, tables)
         if tier == "quick":
             explore(chk, rep, "C17_quick", tables, timeout=600, rg_limit=0)
